@@ -1112,6 +1112,14 @@ int CBigComplexLinProb::PBCGSolveMod(int flag,bool verbose)
         //	return BiCGSTAB(flag);
         return KludgeSolve(flag);
 
+    // a zero right-hand side has the zero solution; the iterations below
+    // would divide by its norm and return NaN
+    if (Re(ConjDot(b,b))==0)
+    {
+        for(int i=0; i<n; i++) V[i]=0;
+        return 1;
+    }
+
     // Get starting point with a few iterations of CGNE;
     if(flag==false)
     {
